@@ -390,8 +390,9 @@ class RustOracle:
             f = by_wire[name]
             is_opt, inner = self.strip_option(f["type"])
             boxed = False
-            if sname == "SelectionRange" and inner == "Box<SelectionRange>":
-                inner, boxed = "SelectionRange", True
+            if sname == "SelectionRange" and "Box<SelectionRange>" in inner:
+                # a Box is transparent on the wire (serde writes Box<T> as T); the self-reference needs one
+                inner, boxed = re.sub(r"\bBox<SelectionRange>", "SelectionRange", inner), True
             exp_opt = bool(p.get("optional")) or self.m.admits_null(p["type"]) or (
                 p["type"]["kind"] == "tuple" and any(self.m.is_null(i) for i in p["type"]["items"]))
             self.evaluations += 1
